@@ -102,7 +102,12 @@ func (r *RectClip64) path1ContainsPath2(path1 Path64, path2 Path64) bool {
 			break
 		}
 	}
-	return ioCount <= 0
+	if ioCount == 0 {
+		// every point of path2 lies on path1: undecided, ask the midpoint of path2
+		bounds := getBounds(path2)
+		return PointInPolygon(bounds.MidPoint(), path1) != IsOutside
+	}
+	return ioCount < 0
 }
 
 func (r *RectClip64) addCornerLocation(prev, curr Location) {
